@@ -136,6 +136,9 @@ class VLoop(base_events.BaseEventLoop):
             raise TypeError("when cannot be None")
         self._check_closed()
         timer = _VTimerHandle(when, callback, args, self, context)
+        dl = getattr(self._world, 'deadlines', None)
+        if dl is not None:          # every deadline the code under test (or the harness) ever armed
+            dl.append(when)
         timer._seq = self._world.tie * next(self._tseq)
         heapq.heappush(self._scheduled, timer)
         timer._scheduled = True
